@@ -42,6 +42,9 @@ SOURCES = [
     "@constexpr\ndef k(a):\n    return a * 9\ndb.Setting = k(6)\n",       # same call text, different body
     "@constexpr\ndef k(a):\n    return HASH('x' * a)\ndb.Setting = k(2)\n",
     "for e in [3, 4]:\n    db.Setting = e\ndb.On = [1, 2, 3][db.Mode]\n",
+    "@constexpr\ndef k(a):\n    raise ValueError('no')\ndb.Setting = k(1)\n",          # constexpr evaluations that fail
+    "@constexpr\ndef k(a):\n    return undefined_name + a\ndb.On = 1\ndb.Setting = k(2)\n",
+    "@constexpr\ndef k(a):\n    return [a]\ndb.Setting = k(1)\n",
 ]
 DICT_SOURCES = [
     {"": "from library import m\n# pytrapic: compact, remove-labels\ndb.Setting = m.g(db.On)\ndb.On = m.g(2)\n", "m": "def g(a):\n    return a + LogicType.On\n"},
@@ -126,6 +129,9 @@ def gen_history(r, tier):
             reqs.append(copy.deepcopy(r.choice(reqs)))      # repeated request
             continue
         src = copy.deepcopy(r.choice(DICT_SOURCES)) if r.random() < 0.2 else r.choice(SOURCES)
+        if isinstance(src, str) and r.random() < 0.35:
+            # the same program further down the file: positions in error reports move, nothing else does
+            src = "".join(r.choice(["# note\n", "\n", "# pytrapic-free comment\n"]) for _ in range(r.randrange(1, 4))) + src
         k = r.random()
         opts = None if k < 0.15 else whole.random_opts(r)
         if opts is not None:
